@@ -199,7 +199,7 @@ def run(rep):
         rep.add_tlc("C04.GridItems (argument vectors, receivers, operator forms, use statements) + GridLaw", gres)
         items = {}
         for r in gres.records:
-            if r.get("kind") in ("vec", "recv", "op", "use", "huge", "allocating", "param"):
+            if r.get("kind") in ("vec", "recv", "op", "use", "huge", "allocating", "param", "compiling", "nested"):
                 items[json.dumps(r, sort_keys=True)] = r
         items = [items[k] for k in sorted(items)]
         gres.records, gres.stdout = None, ""
@@ -211,12 +211,14 @@ def run(rep):
         params = {r["pf"]: r["ar"] for r in items if r["kind"] == "param"}
         huge = sorted({r["pf"] for r in items if r["kind"] == "huge"})
         allocating = sorted({r["pf"] for r in items if r["kind"] == "allocating"})
+        compiling = sorted({r["pf"] for r in items if r["kind"] == "compiling"})
+        nested = sorted({r["pf"] for r in items if r["kind"] == "nested"})
         oppairs = [list(v) for v in vecs if "oppair" in vgroups[v]]
         usevecs = [list(v) for v in vecs if "use" in vgroups[v]]
         main = [v for v in vecs if "kinds" in vgroups[v]]
         classes = sorted({a for v in vecs for a in v})
         if (len(main) < 800 or len(huge) < 3 or len(allocating) < 10 or not any(len(v) == 3 for v in main) or len(ops) < 30 or len(use) < 10
-                or set(params) != {"HostileSize", "DeepLevels", "MutBudget"} or len(oppairs) < 50):
+                or set(params) != {"HostileSize", "DeepLevels", "MutBudget"} or len(oppairs) < 50 or not compiling or not nested):
             raise Machinery("argument grid incomplete: %d vectors, %d huge classes, %d allocating names, %d operator forms, %d use statements, "
                             "parameters %r" % (len(main), len(huge), len(allocating), len(ops), len(use), params))
         if set(rgroups) != set(RECEIVERS):
@@ -245,7 +247,7 @@ def run(rep):
                     vs = [list(v) for v in mine[k::ns] if intrep == "lit" or any(a in py_classes for a in v)]
                     ecases.append({"kind": "grid", "recv": recv, "vecs": vs, "allocating": allocating, "huge": huge, "intrep": intrep,
                                    "ops": myops if intrep == "lit" else [], "oppairs": oppairs, "use": use, "usevecs": usevecs,
-                                   "params": params})
+                                   "params": params, "compiling": compiling, "nested": nested})
         stats["nrecv"] = len(RECEIVERS)
         process(rep, rng, ecases, stats)
 
